@@ -109,6 +109,21 @@ class _FieldOfDressed:
                 delattr(container, "_dressed_" + self.name)
 
 
+def _py_to_xo_names(xostruct, xoname, value):
+    """A dictionary given for a nested hybrid object (as to_dict writes it)
+    holds the python names of its fields: the nested struct wants xo names"""
+    if isinstance(value, dict) and hasattr(xostruct, xoname):
+        ftype = getattr(xostruct, xoname).ftype
+        dressing = getattr(ftype, "_DressingClass", None)
+        if dressing is not None:
+            inv = dressing._inverse_rename
+            return {
+                inv.get(kk, kk): _py_to_xo_names(ftype, inv.get(kk, kk), vv)
+                for kk, vv in value.items()
+            }
+    return value
+
+
 def _is_default(defaults, name, value):
     """True if `value` equals the default of the xofield `name`"""
     if name not in defaults:  # no default available: always store
@@ -310,7 +325,8 @@ class HybridClass(metaclass=MetaHybridClass):
                 dressed_kwargs[kk] = vv
                 xo_kwargs[self._inverse_rename.get(kk, kk)] = vv._xobject
             else:
-                xo_kwargs[self._inverse_rename.get(kk, kk)] = vv
+                xoname = self._inverse_rename.get(kk, kk)
+                xo_kwargs[xoname] = _py_to_xo_names(self._XoStruct, xoname, vv)
 
         self._xobject = self._XoStruct(**xo_kwargs)
 
